@@ -30,6 +30,63 @@ pub const LAST_RESORT_TICKS: u64 = 60_000;
 /// without effect is a violation independent of machine speed.
 pub const PROGRESS_SLACK: u64 = 50;
 
+/// A thread that makes no loop iteration and is found blocked (state S/D in
+/// /proc/self/task/<tid>/stat) at this many consecutive samples, 100 ms apart, while it is owed
+/// a wake-up, is hung. Samples are taken by the controller, so a stalled machine takes none.
+pub const BLOCKED_SAMPLES: u32 = 200;
+const SAMPLE_EVERY: StdDuration = StdDuration::from_millis(100);
+
+fn find_tid(name: &str) -> Option<i32> {
+    let rd = std::fs::read_dir("/proc/self/task").ok()?;
+    for e in rd.flatten() {
+        let p = e.path();
+        if let Ok(comm) = std::fs::read_to_string(p.join("comm")) {
+            if comm.trim_end() == name {
+                return p.file_name()?.to_str()?.parse().ok();
+            }
+        }
+    }
+    None
+}
+
+/// Some(true): blocked (sleeping); Some(false): running or runnable; None: unknown / gone.
+fn thread_blocked(tid: i32) -> Option<bool> {
+    let text = std::fs::read_to_string(format!("/proc/self/task/{tid}/stat")).ok()?;
+    let rest = &text[text.rfind(')')? + 1..];
+    let state = rest.split_whitespace().next()?;
+    Some(matches!(state, "S" | "D"))
+}
+
+/// Periodic sample of (loop iterations moved?, thread blocked?) for every resource.
+struct BlockWatch {
+    last: Instant,
+    iters: Vec<u64>,
+}
+
+impl BlockWatch {
+    fn new(live: &[Live]) -> BlockWatch {
+        BlockWatch { last: Instant::now(), iters: live.iter().map(|l| l.clock.iters.load(SeqCst)).collect() }
+    }
+    fn tick(&mut self, live: &mut [Live]) -> Option<Vec<(bool, Option<bool>)>> {
+        if self.last.elapsed() < SAMPLE_EVERY {
+            return None;
+        }
+        self.last = Instant::now();
+        let mut out = Vec::new();
+        for (i, l) in live.iter_mut().enumerate() {
+            let it = l.clock.iters.load(SeqCst);
+            let moved = it != self.iters[i];
+            self.iters[i] = it;
+            if l.tid.is_none() {
+                l.tid = find_tid(&l.name);
+            }
+            let blocked = l.tid.and_then(thread_blocked);
+            out.push((moved, blocked));
+        }
+        Some(out)
+    }
+}
+
 /// Polling helper of the controller: yields first, then sleeps (so that the controller does not
 /// compete with the resource threads for the CPU), counting its long sleeps as ticks.
 struct Waiter {
@@ -202,6 +259,7 @@ pub struct RepStats {
     pub cycles: u64,
     pub samples: u32,
     pub pause_unobserved: bool,
+    pub chased: bool,
 }
 
 struct Live {
@@ -225,6 +283,8 @@ struct Live {
     f_first: u64,
     f_last: u64,
     joined: Option<bool>,
+    name: String,
+    tid: Option<i32>,
 }
 
 struct Rig<'a> {
@@ -328,6 +388,8 @@ impl<'a> Rig<'a> {
                 f_first: 0,
                 f_last: 0,
                 joined: None,
+                name: format!("c20-r{i}"),
+                tid: None,
             });
         }
         Ok(Rig {
@@ -453,7 +515,60 @@ impl<'a> Rig<'a> {
         Ok(())
     }
 
-    fn do_stop(&mut self, i: usize, via_handle: bool, poll: bool) {
+    /// The controller's very next action after a wake-up: a small step of the manual clock.
+    fn chase(live: &[Live], clock_kind: u8, i: usize, ns: i64, all: bool) {
+        let d = Duration::from_nanos(ns);
+        if clock_kind == 1 && all {
+            for l in live {
+                if let Some(c) = l.clock.manual() {
+                    c.advance(d);
+                }
+            }
+        } else if let Some(c) = live[i].clock.manual() {
+            c.advance(d);
+        }
+    }
+
+    fn do_pause(&mut self, i: usize, chase: Option<(i64, bool)>) {
+        if self.live[i].stop_called {
+            return;
+        }
+        let sb = self.live[i].cell.started.load(SeqCst);
+        let _ = self.live[i].ctl.pause();
+        if let Some((ns, all)) = chase {
+            Self::chase(&self.live, self.s.clock, i, ns, all);
+            self.stats.chased = true;
+        }
+        let l = &mut self.live[i];
+        let fa = l.cell.finished.load(SeqCst);
+        l.last_cmd = 1;
+        l.resume_ref = None;
+        l.pause_ref = Some((l.cell.started.load(SeqCst), l.clock.iters.load(SeqCst)));
+        if fa < sb && l.ctl.state() != ResourceState::Faulted {
+            self.stats.inflight_pause = true;
+        }
+    }
+
+    fn do_resume(&mut self, i: usize, chase: Option<(i64, bool)>) -> Result<(), RepEnd> {
+        if self.live[i].stop_called {
+            return Ok(());
+        }
+        self.watch()?; // last look at the window before it closes
+        let l = &mut self.live[i];
+        l.window = None;
+        l.pause_ref = None;
+        l.last_cmd = 2;
+        let _ = l.ctl.resume();
+        if let Some((ns, all)) = chase {
+            Self::chase(&self.live, self.s.clock, i, ns, all);
+            self.stats.chased = true;
+        }
+        let l = &mut self.live[i];
+        l.resume_ref = Some((l.cell.started.load(SeqCst), l.clock.iters.load(SeqCst)));
+        Ok(())
+    }
+
+    fn do_stop(&mut self, i: usize, via_handle: bool, poll: bool, chase: Option<(i64, bool)>) {
         if self.live[i].stop_called {
             return;
         }
@@ -465,6 +580,11 @@ impl<'a> Rig<'a> {
             (true, Some(h)) => h.stop(),
             _ => l.ctl.stop(),
         }
+        if let Some((ns, all)) = chase {
+            Self::chase(&self.live, self.s.clock, i, ns, all);
+            self.stats.chased = true;
+        }
+        let l = &mut self.live[i];
         let fa = l.cell.finished.load(SeqCst);
         l.stop_ref = Some(l.clock.iters.load(SeqCst));
         l.stop_called = true;
@@ -550,34 +670,14 @@ impl<'a> Rig<'a> {
 
     fn exec(&mut self, op: &Op) -> Result<(), RepEnd> {
         match op {
-            Op::Pause(r) => {
-                let i = *r as usize;
-                if !self.live[i].stop_called {
-                    let l = &mut self.live[i];
-                    let sb = l.cell.started.load(SeqCst);
-                    let _ = l.ctl.pause();
-                    let fa = l.cell.finished.load(SeqCst);
-                    l.last_cmd = 1;
-                    l.resume_ref = None;
-                    l.pause_ref = Some((l.cell.started.load(SeqCst), l.clock.iters.load(SeqCst)));
-                    if fa < sb && l.ctl.state() != ResourceState::Faulted {
-                        self.stats.inflight_pause = true;
-                    }
-                }
-            }
-            Op::Resume(r) => {
-                let i = *r as usize;
-                if !self.live[i].stop_called {
-                    self.watch()?; // last look at the window before it closes
-                    let l = &mut self.live[i];
-                    l.window = None;
-                    l.pause_ref = None;
-                    l.last_cmd = 2;
-                    let _ = l.ctl.resume();
-                    l.resume_ref = Some((l.cell.started.load(SeqCst), l.clock.iters.load(SeqCst)));
-                }
-            }
-            Op::Stop { r, via_handle, poll } => self.do_stop(*r as usize, *via_handle, *poll),
+            Op::Pause(r) => self.do_pause(*r as usize, None),
+            Op::Resume(r) => self.do_resume(*r as usize, None)?,
+            Op::Stop { r, via_handle, poll } => self.do_stop(*r as usize, *via_handle, *poll, None),
+            Op::Chased { cmd, r, via_handle, ns, all } => match cmd {
+                0 => self.do_pause(*r as usize, Some((*ns, *all))),
+                1 => self.do_resume(*r as usize, Some((*ns, *all)))?,
+                _ => self.do_stop(*r as usize, *via_handle, false, Some((*ns, *all))),
+            },
             Op::Advance { r, ns } => {
                 let d = Duration::from_nanos(*ns);
                 match (self.s.clock, r) {
@@ -645,6 +745,8 @@ impl<'a> Rig<'a> {
                     let target = self.live[i].cell.finished.load(SeqCst) + *n as u64;
                     let bound_ms = if resumed_from.is_some() { 2000 } else { 50 };
                     let mut w = Waiter::new();
+                    let mut bw = BlockWatch::new(&self.live);
+                    let mut streak = 0u32;
                     loop {
                         self.watch()?; // carries the progress criterion for resume()
                         let l = &self.live[i];
@@ -652,10 +754,41 @@ impl<'a> Rig<'a> {
                             Some((s0, _)) => l.cell.started.load(SeqCst) > s0,
                             None => l.cell.finished.load(SeqCst) >= target,
                         };
-                        if done || self.terminal(i) || w.helper_expired(bound_ms) {
+                        if done || self.terminal(i) {
                             break;
                         }
-                        self.drive(Some(i));
+                        if resumed_from.is_some() {
+                            // resume() must get the resource going without help from the clock.
+                            // Hung = it makes no loop iteration, its thread is blocked, and no
+                            // other resource iterates either (so it is not waiting for the
+                            // shared lock), at BLOCKED_SAMPLES consecutive samples.
+                            if let Some(sample) = bw.tick(&mut self.live) {
+                                let quiet = sample.iter().all(|(moved, _)| !*moved);
+                                if quiet && sample[i].1 == Some(true) {
+                                    streak += 1;
+                                } else {
+                                    streak = 0;
+                                }
+                                if streak >= BLOCKED_SAMPLES {
+                                    return Err(RepEnd::Hang(format!(
+                                        "resume() on resource {i} had no effect: no loop iteration, thread blocked and no other resource running at {BLOCKED_SAMPLES} consecutive samples over {} s (state {:?}, clock kind {}, interval {} ns, op {})",
+                                        w.t0.elapsed().as_secs(),
+                                        self.live[i].ctl.state(),
+                                        self.s.clock,
+                                        self.s.interval_ns,
+                                        self.op_idx
+                                    )));
+                                }
+                            }
+                            if streak == 0 && w.helper_expired(bound_ms) {
+                                break;
+                            }
+                        } else {
+                            if w.helper_expired(bound_ms) {
+                                break;
+                            }
+                            self.drive(Some(i));
+                        }
                         w.pause();
                     }
                 }
@@ -747,7 +880,8 @@ impl<'a> Rig<'a> {
         let n = self.live.len();
         let order: Vec<usize> = if self.s.final_rev { (0..n).rev().collect() } else { (0..n).collect() };
         for i in order {
-            self.do_stop(i, self.s.final_via_handle, self.s.final_poll);
+            let chase = self.s.final_advance_ns.map(|ns| (ns, false));
+            self.do_stop(i, self.s.final_via_handle, self.s.final_poll, chase);
         }
         let problem = match self.collect_joins(true) {
             Ok(()) => return Ok(()),
@@ -775,6 +909,8 @@ impl<'a> Rig<'a> {
     /// Wait until every joiner reported. `judge` = apply the stop progress criterion.
     fn collect_joins(&mut self, judge: bool) -> Result<(), RepEnd> {
         let mut w = Waiter::new();
+        let mut bw = BlockWatch::new(&self.live);
+        let mut streak = vec![0u32; self.live.len()];
         loop {
             while let Ok((i, ok)) = self.join_rx.try_recv() {
                 self.live[i].joined = Some(ok);
@@ -784,6 +920,27 @@ impl<'a> Rig<'a> {
             }
             if judge {
                 self.watch()?;
+                if let Some(sample) = bw.tick(&mut self.live) {
+                    for (i, (moved, blocked)) in sample.iter().enumerate() {
+                        if self.live[i].joined.is_none() && !*moved && *blocked == Some(true) {
+                            streak[i] += 1;
+                        } else {
+                            streak[i] = 0;
+                        }
+                    }
+                    let hung: Vec<usize> = (0..streak.len()).filter(|i| streak[*i] >= BLOCKED_SAMPLES).collect();
+                    if !hung.is_empty() {
+                        let states: Vec<ResourceState> = hung.iter().map(|i| self.live[*i].ctl.state()).collect();
+                        return Err(RepEnd::Hang(format!(
+                            "stop() returned but join() does not: resource(s) {hung:?} made no loop iteration and their threads were blocked at {BLOCKED_SAMPLES} consecutive samples over {} s after every resource had been told to stop, nothing advancing the clock (states {states:?}; clock kind {}, interval {} ns, gate open: {}, teardown step {:?})",
+                            w.t0.elapsed().as_secs(),
+                            self.s.clock,
+                            self.s.interval_ns,
+                            self.gate_open,
+                            self.s.final_advance_ns
+                        )));
+                    }
+                }
             }
             if w.last_resort() {
                 let missing: Vec<usize> =
